@@ -12,7 +12,7 @@
    definitions [mul_code], [div_code], [pow_code] below. *)
 From Coq Require Import ZArith QArith List Bool.
 From QV Require Import Model.Num Model.Rounding Model.Quantity Model.Dim Model.Registry
-     Gen.QuantityImpl Gen.OpsImpl Proofs.GenQuantityEq.
+     Model.Rates Model.RegRates Gen.QuantityImpl Gen.OpsImpl Proofs.GenQuantityEq.
 Open Scope Z_scope.
 
 Lemma Qred_idem q : Qred (Qred q) = Qred q.
@@ -186,3 +186,34 @@ Theorem real_operands_like_rationals s dm ce :
   (forall a u k, Q_div_real s dm ce a u k = Q_div_num s dm ce a u k) /\
   (forall a u k, Q_rdiv_real s dm ce a u k = Q_rdiv_num s dm ce a u k).
 Proof. repeat split; reflexivity. Qed.
+
+(* ---- an exchange rate applied to money and to money-per-quantity values
+   (money/__init__.py: ExchangeRate.__mul__ = __rmul__, __rtruediv__).  The
+   dispatch on the operand (`isinstance(other, Money)`) is the model's
+   [is_money]; the rate enters through its currencies, .rate and .inverse_rate *)
+Definition rate_code (s : state) (dm : mode) (ce : convenv) (mul : bool) (a : Q) (uid : N)
+           (r : rate) : res mres :=
+  match find_unit s uid, find_unit s (r_unit r), find_unit s (r_term r) with
+  | Some u, Some cu, Some ct =>
+      snd (if is_money s u
+           then (if mul then R_mul_money else R_rdiv_money)
+                  s dm ce cu ct (rate_of r) (inverse_rate r) a u
+           else (if mul then R_mul_qty else R_rdiv_qty)
+                  s dm ce cu ct (rate_of r) (inverse_rate r) a u)
+  | _, _, _ => Err EOther
+  end.
+
+Theorem apply_rate_is_code s dm ce mul a uid r :
+  apply_rate s dm mul a uid r = rate_code s dm ce mul a uid r.
+Proof.
+  unfold apply_rate, rate_code.
+  destruct (find_unit s uid) as [u|]; [|reflexivity].
+  destruct (find_unit s (r_unit r)) as [cu|]; [|reflexivity].
+  destruct (find_unit s (r_term r)) as [ct|]; [|reflexivity].
+  destruct mul, (is_money s u);
+    unfold R_mul_money, R_rdiv_money, R_mul_qty, R_rdiv_qty; cbn [snd].
+  - destruct (N.eqb (ru_id u) (ru_id cu)); reflexivity.
+  - destruct (resolve s _) as [[f w]|]; reflexivity.
+  - destruct (N.eqb (ru_id u) (ru_id ct)); reflexivity.
+  - destruct (resolve s _) as [[f w]|]; reflexivity.
+Qed.
